@@ -47,7 +47,8 @@ structure DState where
   unified : Bool := true
   pickBest : Bool := true
   enhanced : Bool := true
-  visGuard : Bool := true     -- F=0 replays the behaviour before the `fix:` commit
+  visGuard : Bool := true     -- F=0 replays the behaviour before the `fix:` commit (F7)
+  exactGuard : Bool := true   -- X=0 replays the behaviour before the `fix:` commit (F10)
   mesh : Mesh := {}
   raw : List Svc := []        -- as declared
   built : Bool := false
@@ -105,7 +106,7 @@ def showDRs (l : List (String × List CDR)) : String :=
     enc h ++ ">" ++ "&".intercalate (cs.map fun c => "+".intercalate (c.frm.map fun f => enc (f.1 ++ "/" ++ f.2))))
 
 def DState.flags (d : DState) : Flags :=
-  { unified := d.unified, pickBest := d.pickBest, enhanced := d.enhanced, visGuard := d.visGuard }
+  { unified := d.unified, pickBest := d.pickBest, enhanced := d.enhanced, visGuard := d.visGuard, exactGuard := d.exactGuard }
 
 def showScope (d : DState) (name : String) (ls : List ILW) (services : List Svc) (cfgNs : String) : String :=
   let lst := ls.map fun l => showSvcs l.services false ++ "/" ++ showVSs l.vss
@@ -154,7 +155,7 @@ def stepD (d : DState) (toks : List String) : DState × String :=
   match toks with
   | "case" :: rest =>
     ({ unified := flagOf rest "U" true, pickBest := flagOf rest "P" true, enhanced := flagOf rest "E" true,
-       visGuard := flagOf rest "F" true }, "ok")
+       visGuard := flagOf rest "F" true, exactGuard := flagOf rest "X" true }, "ok")
   | ["h", n, m] => (d, hostLine (dec n) (dec m))
   | ["mesh", root, ds, dv, dd, ap] =>
     ({ d with mesh := { rootNs := dec root, defSvc := decOptList ds, defVS := decOptList dv,
